@@ -247,7 +247,15 @@ func cmdMeta(args []string) *Result {
 		t := &metaTrace{Rel: rel, X: ints(x), TX: ints(tx), Arg: ints(pad), Shape: []int{}}
 		pm := guard(func() {
 			ba, ra := commonmark.Parse(append([]byte(nil), x...))
-			bb, rb := commonmark.Parse(append([]byte(nil), tx...))
+			// the transformed input is parsed through the streaming entry point on every other input, over a reader
+			// whose reads end right after each carriage return (CRLF split across reads, a lone CR with nothing behind it yet)
+			var bb []*commonmark.RootBlock
+			var rb commonmark.ReferenceMap
+			if len(x)%2 == 1 && bytes.IndexByte(tx, '\r') >= 0 {
+				bb, rb, _ = streamParseEdgy(append([]byte(nil), tx...))
+			} else {
+				bb, rb = commonmark.Parse(append([]byte(nil), tx...))
+			}
 			switch rel {
 			case "crlf", "cr":
 				t.A = htmlIDs(ba, ra, eolNorm, false)
@@ -279,13 +287,21 @@ func cmdMeta(args []string) *Result {
 		rp := &metaReplay{Kind: "meta", Rel: "reparse", Input: ints(x)}
 		t := &metaTrace{Rel: "reparse", X: ints(x), TX: []int{}, Arg: []int{}, Shape: []int{}}
 		pm := guard(func() {
-			blocks, refs := commonmark.Parse(append([]byte(nil), x...))
+			// a document with carriage returns is parsed through the streaming entry point over a reader whose reads end
+			// right after each CR; the block's Source is then parsed alone the same way
+			var blocks []*commonmark.RootBlock
+			var refs commonmark.ReferenceMap
+			if bytes.IndexByte(x, '\r') >= 0 {
+				blocks, refs, _ = streamParseEdgy(append([]byte(nil), x...))
+			} else {
+				blocks, refs = commonmark.Parse(append([]byte(nil), x...))
+			}
 			a := [][]int{}
 			b := [][]int{}
 			for _, rb := range blocks {
 				a = append(a, []int{int(rb.Kind()), int(rb.StartOffset), int(rb.EndOffset), in.id(dumpTree(rb))})
 				// parse the block's Source alone, block by block, with the document's reference matcher
-				p := commonmark.NewBlockParser(bytes.NewReader(append([]byte(nil), rb.Source...)))
+				p := commonmark.NewBlockParser(&edgeReader{data: append([]byte(nil), rb.Source...)})
 				var subs []*commonmark.RootBlock
 				for {
 					sb, err := p.NextBlock()
